@@ -49,7 +49,7 @@ Fixpoint h_add (k v : N) (h : hdrs) : hdrs :=
 Definition h_set (k v : N) (h : hdrs) : hdrs := h_del k h ++ [(k, [v])].
 
 (* ------------------------------------------------------------------------ writer *)
-(* ghost log of the calls made on the wrapper: the specification of the getters is stated on it *)
+(* ghost log of the calls made on the wrapper that returned (a WriteHeader that panicked wrote nothing): the specification of the getters is stated on it *)
 Inductive wop := OpWH (c : N) | OpW (len : N).
 
 Record wrap := mkWrap { w_status : N; w_written : bool; w_size : N }.
@@ -98,15 +98,19 @@ Definition rec_write (b : list N) (r : recd) : recd * N :=
   else (r2, 0%N).
 
 (* responseWriter.WriteHeader without the ghost log (also used by Write for the implicit 200):
-   the wrapper latches status/written BEFORE calling the underlying writer *)
+   the underlying WriteHeader is called FIRST (it may panic on the code); status/written are
+   recorded only after it returned (repo commit d237067) *)
 Definition wrap_write_header (c : N) (w : wstate) : wstate * bool :=
   if w_written (wr w) then (w, false)
   else
     let (r', p) := rec_write_header c (rc w) in
-    (mkW (mkWrap c true (w_size (wr w))) r' (ops w), p).
+    if p then (mkW (wr w) r' (ops w), true)
+    else (mkW (mkWrap c true (w_size (wr w))) r' (ops w), false).
 
+(* the ghost log records the calls that returned (a call that panicked wrote nothing) *)
 Definition w_write_header (c : N) (w : wstate) : wstate * bool :=
-  wrap_write_header c (mkW (wr w) (rc w) (ops w ++ [OpWH c])).
+  let (w', p) := wrap_write_header c w in
+  if p then (w', true) else (mkW (wr w') (rc w') (ops w' ++ [OpWH c]), false).
 
 Definition w_write (b : list N) (w : wstate) : wstate * bool :=
   let w0 := mkW (wr w) (rc w) (ops w ++ [OpW (lenN b)]) in
@@ -436,10 +440,3 @@ Fixpoint spec_bytes (l : list wop) : N :=
   end.
 Definition spec_size (l : list wop) : N :=
   if body_allowed (spec_status l) then spec_bytes l else 0%N.
-
-(* all status codes a chain can pass to WriteHeader are acceptable to net/http (100..999) *)
-Definition action_valid (a : action) : bool :=
-  match a with AWriteHeader c => code_valid c | _ => true end.
-Definition handler_valid (h : handler) : bool :=
-  match h with User acts => forallb action_valid acts | _ => true end.
-Definition chain_valid (hs : list handler) : bool := forallb handler_valid hs.
